@@ -473,11 +473,28 @@ def run_readonly(case, X, t, root, spec, rec):
         if (sel[3] % 3 and d < 4) or t is None:
             return          # images are slow: rendered in a third of these cases (tensors, as the statement says)
         X = t
-        for style in ("tree", "uncompressed", "tree+uncompressed"):
-            a = TensorImage(X, style=style).im
-            b = TensorImage(X, style=style).im
-            if a.size != b.size or a.tobytes() != b.tobytes():
-                raise Violation("image-determinism", f"two renderings of the same tensor differ (style {style})")
+        # with and without highlights: a full point, and a partial point (a whole sub-tensor is highlighted then)
+        hls = [{}]
+        if sel[2] % 3 == 0:
+            hls += [{"PE": [tuple(pt)]}, {"PE": [tuple(pt[:max(1, d - 1)])]}]
+            rec.cls("image-highlights")
+        first = {}
+        for rnd in range(2):
+            for hi, hl in enumerate(hls):
+                for style in ("tree", "uncompressed", "tree+uncompressed"):
+                    a = TensorImage(X, style=style, highlights=copy.deepcopy(hl)).im
+                    b = TensorImage(X, style=style, highlights=copy.deepcopy(hl)).im
+                    if a.size != b.size or a.tobytes() != b.tobytes():
+                        raise Violation("image-determinism", f"two renderings of the same tensor differ (style {style}, "
+                                        f"highlights {hl})")
+                    # ... and the same picture again after renderings with other highlights in between
+                    key = (hi, style)
+                    if key in first and first[key] != (a.size, a.tobytes()):
+                        raise Violation("image-determinism", f"rendering (style {style}, highlights {hl}) differs from the "
+                                        f"same rendering made before others with other highlights")
+                    first.setdefault(key, (a.size, a.tobytes()))
+            if len(hls) == 1:
+                break
         rec.cls("image-rendered")
 
 
